@@ -65,6 +65,8 @@ def density(iso_el):
     """
 
     if hasattr(iso_el, 'element'):
+        if iso_el.element._density is None:
+            return None
         return iso_el.element._density * (iso_el.mass/iso_el.element.mass)
     return iso_el._density
 
